@@ -31,7 +31,14 @@ def main():
         print(rows[-1], flush=True)
     sh(f"git -C /repo worktree remove --force {WT}; git -C /repo worktree prune")
     shutil.rmtree("/tmp/pvc_seedall_ev", ignore_errors=True)
-    json.dump(rows, open(os.path.join(V, "seeded", "RESULTS.json"), "w"), indent=1)
+    rp = os.path.join(V, "seeded", "RESULTS.json")
+    try:
+        old = {r[0]: r for r in json.load(open(rp))}
+    except Exception:
+        old = {}
+    for r in rows:
+        old[r[0]] = list(r)
+    json.dump([old[k] for k in sorted(old)], open(rp, "w"), indent=1)
 
 
 if __name__ == "__main__":
